@@ -67,21 +67,33 @@ impl CaoLangAllocator {
     /// `alloc` is not thread safe. It is on the caller to ensure that only a single thread uses
     /// the allocator at a time
     pub unsafe fn alloc(&self, l: Layout) -> Result<NonNull<u8>, AllocError> {
-        let s = l.size() + l.align();
-        let allocated = s + self.allocated.fetch_add(s, Ordering::Relaxed);
-        if allocated > self.limit.load(Ordering::Relaxed) {
-            return Err(AllocError::OutOfMemory);
-        }
-        if allocated > self.next_gc.load(Ordering::Relaxed) {
-            self.next_gc.store(allocated * 2, Ordering::Relaxed);
+        let s = l.size().saturating_add(l.align());
+        let limit = self.limit.load(Ordering::Relaxed);
+        // None: the request does not even fit in usize
+        let mut allocated = s.checked_add(self.allocated.load(Ordering::Relaxed));
+        let mut collected = false;
+        if allocated.map_or(true, |a| a > self.next_gc.load(Ordering::Relaxed) || a > limit) {
+            // collect before giving up: garbage must not cause an out of memory error
             unsafe {
                 (*self.runtime).gc();
             }
+            collected = true;
             debug!(
-                "GC done. Allocated before: {allocated}. Allocated now: {}",
+                "GC done. Allocated before: {allocated:?}. Allocated now: {}",
                 self.allocated.load(Ordering::Relaxed)
             );
+            allocated = s.checked_add(self.allocated.load(Ordering::Relaxed));
         }
+        let allocated = match allocated {
+            Some(a) if a <= limit => a,
+            // nothing has been charged for the failed request
+            _ => return Err(AllocError::OutOfMemory),
+        };
+        if collected {
+            self.next_gc
+                .store(allocated.saturating_mul(2), Ordering::Relaxed);
+        }
+        self.allocated.store(allocated, Ordering::Relaxed);
         let ptr = alloc(l);
         Ok(NonNull::new(ptr).unwrap())
     }
